@@ -158,6 +158,22 @@ def rich_cases(ctx):
                 d2 = Delta(b, bidirectional=bidir, raise_errors=True, safe_to_import=allow)
             except Exception as e:
                 ctx.violate(case, 'own dump does not load: %s: %s' % (type(e).__name__, str(e)[:100])); continue
+            # the allowance must reach every channel: the same bytes reloaded from a file object and from a path
+            for chn in ('file', 'path'):
+                try:
+                    if chn == 'file':
+                        dch = Delta(delta_file=io.BytesIO(b), bidirectional=bidir, raise_errors=True, safe_to_import=allow)
+                    else:
+                        with tempfile.TemporaryDirectory(prefix='verif_c14_') as td_:
+                            pp_ = os.path.join(td_, 'rich.pkl')
+                            with open(pp_, 'wb') as fh_:
+                                d.dump(fh_)
+                            dch = Delta(delta_path=pp_, bidirectional=bidir, raise_errors=True, safe_to_import=allow)
+                except Exception as e:
+                    ctx.violate(dict(case, channel=chn), 'own dump loads from bytes with safe_to_import but not from a %s: %s: %s' % (chn, type(e).__name__, str(e)[:100])); continue
+                if not payload_eq(dch.diff, d.diff):
+                    ctx.violate(dict(case, channel=chn), 'the payload reloaded from a %s differs from the original' % chn)
+                ctx.count('rich_channel:' + chn)
             if not payload_eq(d2.diff, d.diff):              # not the bytes: the pickle of a set follows its iteration order, which a rebuild may change
                 ctx.violate(case, 'the reloaded payload %r differs from the original %r' % (d2.diff, d.diff))
             def outc(f):
@@ -357,6 +373,28 @@ def run(ctx, impl_only=False):
                                 outs += [outcome(lambda b_=b_: copy.deepcopy(b_) - mkj()) for b_ in bases]
                             if outs != ref_out:
                                 ctx.violate(dict(case, channel='json'), 'JSON-reloaded delta behaves differently: %r vs %r' % (outs, ref_out))
+                            # the same JSON text reloaded from a path and from a file object: the constructor's
+                            # deserializer must reach every channel
+                            jpath = os.path.join(tmpdir, 'd.json')
+                            with open(jpath, 'w') as fh:
+                                dj0.dump(fh)
+                            jl = {'json_path': lambda: Delta(delta_path=jpath, bidirectional=bidir, always_include_values=aiv, deserializer=json_loads),
+                                  'json_file': lambda: Delta(delta_file=io.StringIO(js), bidirectional=bidir, always_include_values=aiv, deserializer=json_loads)}
+                            for chj, mkx in jl.items():
+                                try:
+                                    sj = pkl.symb(mkx().diff)
+                                except Exception as e:
+                                    ctx.violate(dict(case, channel=chj), 'JSON delta reloaded through %s raised %s: %s' % (chj, type(e).__name__, str(e)[:150]))
+                                    continue
+                                if sj != pkl.symb(dj.diff):
+                                    ctx.violate(dict(case, channel=chj), 'JSON delta reloaded through %s carries another payload than the one reloaded from text' % chj)
+                                    continue
+                                outs = [outcome(lambda b_=b_: copy.deepcopy(b_) + mkx()) for b_ in bases]
+                                if bidir:
+                                    outs += [outcome(lambda b_=b_: copy.deepcopy(b_) - mkx()) for b_ in bases]
+                                if outs != ref_out:
+                                    ctx.violate(dict(case, channel=chj), 'JSON delta reloaded through %s behaves differently: %r vs %r' % (chj, outs, ref_out))
+                                ctx.count('channel:' + chj)
                         ctx.count('channel:json')
                     except Exception as e:
                         ctx.violate(dict(case, channel='json'), 'JSON channel raised %s: %s' % (type(e).__name__, str(e)[:150]))
